@@ -22,8 +22,9 @@ import numpy
 from .. import engine, fpx
 from ..translate import blocks
 
-THEOREMS = ["generated_wf", "exp_shape", "ln2hi_short", "ln2_enclosure"]
-SEARCHED = ["k integral, |r+c| <= 0.55 ln2, |k ln2 + (r+c) - x| <= ulp(x) (mpmath reconstruction)",
+THEOREMS = ["generated_wf", "exp_shape", "ln2hi_short", "ln2_enclosure", "exp_reduction_16", "exp_reduction_32", "exp_reduction_64",
+            "exp_constants", "exp_reconstruction_bounds"]
+SEARCHED = ["k integral, |r+c| <= 0.55 ln2, |k ln2 + (r+c) - x| <= ulp(x) (mpmath reconstruction; also a theorem over Q, see THEOREMS)",
             "trigonometric reduction: k in {0,1,2,3}, |r| <= 1.1 pi/4, remainder within 1 ULP (10 ULP float16) — search only (not traceable)"]
 TRUSTED = [
     "Lean 4 kernel; axioms propext, Classical.choice, Quot.sound only",
@@ -33,8 +34,13 @@ TRUSTED = [
 LEVEL_TEXT = ("Partial proof. Theorems on the regenerated exponent-reduction programs (float16/32/64): well-formedness; the program IS the documented formula "
               "k = floor(x*ln2inv + 1/2), r = x - k*ln2hi, c = -k*ln2lo; ln2hi has at most p - ceil(log2 kmax) significant bits so that k*ln2hi is an exact product "
               "for every integral |k| <= kmax of the domain; ln2hi + ln2lo lies within the documented distance of ln 2 (kernel-checked rational enclosure). "
-              "The reconstruction bounds themselves and the whole trigonometric reduction are decided by mpmath-based search on the real functions.")
-LEVEL_NOTE = "Reconstruction to within 1 ULP and the trigonometric reduction: search only (Payne–Hanek analysis not formalised)."
+              "The exponential-type reduction itself is a theorem over Q (exp_reduction_16/32/64, from a generic exp_reduction for any precision/rounding under explicit numeric side "
+              "conditions): for the format's precision and emin, ANY round-to-nearest and every representable |x| <= 11.09 / 88.73 / 709.79, |k| <= 16 / 128 / 1024, the product k*ln2hi "
+              "and the subtraction x - k*ln2hi are EXACT, k*(ln2hi+ln2lo) + (r + c) differs from x only by the rounding error of k*ln2lo (<= 5e-5 / 2e-11 / 3e-23), "
+              "|r + c| <= 0.361 / 0.348 / 0.347 < 0.55 ln 2, and k = 0 gives the identity; with the rational enclosure of ln 2 the distance of k*ln 2 + (r + c) from x is at most "
+              "1.2e-4 / 3e-11 / 5e-23 (exp_reconstruction_bounds). floor enters as the mathematical floor of the rounded argument. "
+              "The trigonometric reduction is decided by mpmath-based search on the real functions.")
+LEVEL_NOTE = "Exponential reduction: theorem over Q (exactness of r, reconstruction error, |r+c| bound). Trigonometric reduction: search only (Payne–Hanek analysis not formalised)."
 TECHNIQUE = "Lean 4 kernel-checked structural + rational-enclosure theorems on regenerated programs; mpmath reconstruction search"
 
 FMTS = ["float16", "float32", "float64"]
